@@ -869,7 +869,11 @@ class Unparser:
             return 'RESUME NEXT' if s['next'] else 'RESUME'
         if k == 'callsub':
             args = ', '.join(expr_text(a) for a in s['args'])
-            if s.get('form') == 'call':
+            # `name (a) = (b)` is an assignment to an array element in QBASIC, not a call with a comparison
+            # as its argument: a bare call whose argument list starts with a parenthesis and contains `=`
+            # is written with CALL
+            ambiguous = args.startswith('(') and '=' in args
+            if s.get('form') == 'call' or ambiguous:
                 return 'CALL %s%s' % (s['n'], '(' + args + ')' if args else '')
             return ('%s %s' % (s['n'], args)).rstrip()
         if k == 'dev':
